@@ -1,13 +1,14 @@
 SPECIFICATION Spec
 CONSTANTS Coef <- C2
- Pairs <- P2
+ Pairs <- P1
  SumPairs <- SP1
  Bnd <- B1
- MaxD = 2
+ MaxD = 1
  MaxSteps = 2
  SubA <- A2
  SubB <- S1
 INVARIANT SameValueInv
+INVARIANT SameValueOp
 INVARIANT TwoEvaluators
 INVARIANT SimplifyIdempotent
 POSTCONDITION Emit
